@@ -207,9 +207,20 @@ contract(E + 'process_tag', props=['C05', 'C02', 'C08'],
 contract(E + 'expect_nothing', props=['C05'], requires=[], ensures=["False"], labels={0: 'always-raises'}, modifies=[], raises=[EERR])
 
 # ---- C12 / C15 / C11: document boundaries
-for _n, _p in [('prepare_version', {}), ('prepare_tag_handle', {}), ('prepare_tag_prefix', {})]:
-    contract(E + _n, trusted=True, why='text preparation loop; only "returns a text or raises EmitterError" is used by the document-boundary contracts',
-             params=_p, result='str', requires=[], ensures=[], modifies=[], raises=[EERR, 'TypeError', 'ValueError'])
+# ---- C05: the preparers reject bad input with EmitterError only, for arbitrary text
+contract(E + 'prepare_version', props=['C05', 'C12'],
+    requires=["typeis(version, 'tuple') and len(version) == 2 and typeis(version[0], 'int') and typeis(version[1], 'int')"], result='str',
+    ensures=["version[0] == 1"], labels={0: 'only-version-1-is-written'}, modifies=[], raises=[EERR])
+contract(E + 'prepare_tag_handle', props=['C05', 'C12'], params={'handle': 'str'}, result='str',
+    requires=[], ensures=["result == handle and len(handle) >= 1 and handle[0] == '!' and handle[len(handle) - 1] == '!'"],
+    labels={0: 'handle-is-bang-delimited'}, invariants={0: ["typeis(handle, 'str')"]}, modifies=[], raises=[EERR])
+contract(E + 'prepare_tag_prefix', props=['C05', 'C12'], params={'prefix': 'str'}, result='str',
+    requires=[], ensures=["len(prefix) > 0"], labels={0: 'prefix-not-empty'},
+    invariants={0: ["typeis(prefix, 'str') and typeis(chunks, 'list') and fresh(chunks) and 0 <= start and start <= end and end <= len(prefix)",
+                    "forall(j, 0, len(chunks), typeis(chunks[j], 'str'))"],
+                1: ["typeis(prefix, 'str') and typeis(chunks, 'list') and fresh(chunks) and 0 <= start and start <= end and end <= len(prefix)",
+                    "forall(j, 0, len(chunks), typeis(chunks[j], 'str'))"]},
+    modifies=[], raises=[EERR])
 
 define('doc_ok', ['e'], "typeis(e, 'obj:yaml.events.DocumentStartEvent') ==> ("
        "(as_(e, 'obj:yaml.events.DocumentStartEvent').version is None or typeis(as_(e, 'obj:yaml.events.DocumentStartEvent').version, 'tuple')) and "
